@@ -177,6 +177,146 @@ class SimOS(object):
     return getattr(_os, name)
 
 
+class SimEpoll(object):
+  """
+  Stands in for select.epoll() (level-triggered) inside
+  pox.lib.epoll_select: an interest list over simulated fds.  Like the
+  kernel's: error and hang-up conditions are reported whether asked for or
+  not, an fd leaves the list when its socket is closed, register() of a
+  listed fd is EEXIST, modify()/unregister() of an unlisted one ENOENT
+  (unregister of a closed one is silently accepted, as CPython does).
+  """
+
+  def __init__(self, sim):
+    self._sim = sim
+    self._reg = {}            # fd -> (mask, object)
+    self.closed = False
+    sim.stats["epoll_create"] += 1
+
+  def _prune(self):
+    for fd in [fd for fd, (_, o) in self._reg.items()
+               if getattr(o, "closed", False)]:
+      del self._reg[fd]
+      self._sim.stats["epoll_dropped_closed_fd"] += 1
+
+  def _obj(self, fd):
+    if not isinstance(fd, int):
+      fd = fd.fileno()
+    o = self._sim.fds.get(fd) if fd >= 0 else None
+    if o is None or getattr(o, "closed", False):
+      raise OSError(errno.EBADF, "Bad file descriptor")
+    return fd, o
+
+  def register(self, fd, eventmask=None):
+    self._prune()
+    fd, o = self._obj(fd)
+    if fd in self._reg:
+      raise FileExistsError(errno.EEXIST, "File exists")
+    self._reg[fd] = (_EPOLL_DEFAULT if eventmask is None else eventmask, o)
+    self._sim.stats["epoll_register"] += 1
+
+  def modify(self, fd, eventmask):
+    self._prune()
+    fd, o = self._obj(fd)
+    if fd not in self._reg:
+      raise FileNotFoundError(errno.ENOENT, "No such file or directory")
+    self._reg[fd] = (eventmask, o)
+    self._sim.stats["epoll_modify"] += 1
+
+  def unregister(self, fd):
+    self._prune()
+    try:
+      fd, o = self._obj(fd)
+    except OSError:
+      return                  # (EBADF is swallowed by CPython's unregister)
+    if fd not in self._reg:
+      raise FileNotFoundError(errno.ENOENT, "No such file or directory")
+    del self._reg[fd]
+    self._sim.stats["epoll_unregister"] += 1
+
+  def _events(self):
+    self._prune()
+    out = []
+    for fd in sorted(self._reg):
+      mask, o = self._reg[fd]
+      ev = 0
+      if (mask & _EP.EPOLLIN) and o.readable():
+        ev |= _EP.EPOLLIN
+      if (mask & _EP.EPOLLPRI) and o.exceptional():
+        ev |= _EP.EPOLLPRI
+      if (mask & _EP.EPOLLOUT) and o.writable():
+        ev |= _EP.EPOLLOUT
+      if getattr(o, "rx_reset", False) or getattr(o, "tx_dead", False) \
+          or getattr(o, "tx_fatal", None) is not None:
+        ev |= _EP.EPOLLERR | _EP.EPOLLHUP       # (not maskable)
+        self._sim.stats["epoll_err_hup"] += 1
+      if ev:
+        out.append((fd, ev))
+    return out
+
+  def poll(self, timeout=None, maxevents=-1):
+    sim = self._sim
+    sim.stats["select"] += 1
+    if timeout is not None and timeout < 0:
+      timeout = None
+    deadline = None if timeout is None else sim.now + timeout
+    while True:
+      sim.run_due()
+      got = self._events()
+      if got:
+        if sim.shuffle_ready and len(got) > 1:
+          sim.ch.shuffle("ready_ep", got)
+        return got
+      if deadline is not None and sim.now >= deadline:
+        sim.stats["select_timeout"] += 1
+        return []
+      nxt = sim.next_event_time()
+      target = deadline
+      if nxt is not None and (target is None or nxt < target):
+        target = nxt
+      if sim.horizon is not None and (target is None
+                                      or target > sim.horizon):
+        if sim.now < sim.horizon:
+          sim.now = sim.horizon
+        raise WouldBlock()
+      if target is None:
+        raise WouldBlock()
+      if target > sim.now:
+        sim.now = target
+
+  def close(self):
+    self.closed = True
+    self._reg.clear()
+
+  def fileno(self):
+    return -1
+
+
+import select as _EP
+_EPOLL_DEFAULT = _EP.EPOLLIN | _EP.EPOLLPRI | _EP.EPOLLOUT
+
+
+class SimEpollModule(object):
+  """the `select` module as pox.lib.epoll_select sees it"""
+
+  def __init__(self, sim):
+    self._sim = sim
+
+  def epoll(self, *a, **k):
+    return SimEpoll(self._sim)
+
+  def __getattr__(self, name):
+    return getattr(_EP, name)
+
+
+def install_epoll(sim):
+  """put pox.lib.epoll_select's `select` module behind the simulator (call
+  before a Scheduler(use_epoll=True) / EpollSelect is constructed)"""
+  import pox.lib.epoll_select as ES
+  ES.select = SimEpollModule(sim)
+  return ES
+
+
 class SimSocket(object):
   """
   One end of a simulated TCP connection (or a listener).
